@@ -328,3 +328,59 @@ def macro_fuzz(rng):
     for _ in range(rng.randint(1, 6)):
         forms.append("(%s %s)" % (nm, " ".join(_mf_datum(rng, 2) for _ in range(rng.randint(0, 4)))))
     return tame(" ".join(forms))
+
+
+# ------------------------------------------------------------------ procedures and self-referential structures as data
+PV_MAKERS = [
+    "(define (make-a) (define (loop n) (if (> n 0) (loop (- n 1)) 'done)) loop)",
+    "(define (make-b) (define (ev? n) (if (= n 0) #t (od? (- n 1)))) (define (od? n) (if (= n 0) #f (ev? (- n 1)))) ev?)",
+    "(define (make-c x) (lambda (y) (+ x y)))",
+    "(define (make-d) (define self #f) (set! self (lambda () self)) self)",
+    "(define (make-e . r) (lambda () r))",
+    "(define (make-f) (define v (vector 0 0)) (define (get) v) (vector-set! v 0 get) get)",
+    "(define (make-g) (let* ((a (lambda () 1)) (b (lambda () a))) b))",
+    "(define make-h (lambda () (define (k) (list k k)) k))",
+]
+PV_USES = ["(eqv? %a %b)", "(eq? %a %b)", "(equal? %a %b)", "(equal? (list %a) (list %b))", "(equal? (vector %a 1) (vector %b 1))", "(memv %a (list 1 %b %a))", "(memq %a (list %b))",
+           "(case %a ((1 2) 'n) (else 'other))", "(display %a)", "(display (list %a %b))", "(eqv? %a %a)", "(equal? (%a) (%b))", "(list? %a)", "(procedure? %a)",
+           "(map %a (list 1 2))", "(apply %a (list %b))", "(%a %b)", "(vector-ref (vector %a) 0)", "(let ((p %a)) (eq? p p))", "(define zq %a)", "(set! zq %b)", "(eqv? zq %a)",
+           "(fold-left cons '() (list %a %b))", "(append (list %a) %b)", "(equal? (%a) %a)", "(cond ((eqv? %a %b) => (lambda (t) t)) (else %a))"]
+
+
+def procedure_values(rng):
+    """procedures (also mutually recursive, self-referential and environment-sharing ones) handled as data: compared, searched for, stored, printed, applied to each other"""
+    forms = rng.sample(PV_MAKERS, rng.randint(1, 3))
+    names = [f.split()[1].strip("()") for f in forms]
+    vals = []
+    for n in names:
+        arg = " 1" if n == "make-c" else ""
+        vals += ["(%s%s)" % (n, arg), "(%s%s)" % (n, arg)]
+    vals += ["car", "zq-id", "(lambda (x) x)", "make-a" if "make-a" in names else "list"]
+    for _ in range(rng.randint(2, 6)):
+        u = rng.choice(PV_USES)
+        forms.append(u.replace("%a", rng.choice(vals)).replace("%b", rng.choice(vals)))
+    return " ".join(forms)
+
+
+# ------------------------------------------------------------------ aging: histories of failures without side effects
+AGING = ["(car '())", "(list (list (list (list (list (car '()))))))", "(undefined-variable-zz)", "(let ((a)) a)", "(let ((a 1) (b)) b)", "(cond)", "(let* ((x 1) (y (car '()))) y)",
+         "(when (undefined-zz) 1)", "(and 1 (or #f (car '())))", "(cond ((car '()) 1) (else 2))", "(case (car '()) ((1) 2))", "(if)", "(lambda)", "(let ((x 1) . 2) x)",
+         "(begin (begin (begin (vector-ref (vector) 0))))", "((lambda (x) (x)) 5)", "(+ 1 (+ 2 (+ 3 (+ 4 'a))))", "(import (no such library zz))", "(define)", "(set! undefined-zz 1)",
+         "(let loop-zz ((i 0)) i)", "(unless)", "(or (and (let ((q (cdr '()))) q)))", "(1 2 3)", "(apply car '(1 2))", "(map car '(1 2))", "(quote)", "(let () )", "#z", "(vector-set! '#(1) 0 0)",
+         "(/ 1 0)", "((lambda (a b) a) 1)", "(let ((f (lambda () (car '())))) (list (f)))", "(cond (#t => car))", "(case 1 ((1) => (lambda () 0)))"]
+
+
+def aging(rng, n):
+    """n source texts that each end in an error (syntax errors inside derived forms, failed expansions, run-time faults at several nesting depths,
+    failed imports) and change nothing a program can observe; evaluated on an interpreter before the judged program"""
+    out = []
+    for _ in range(n):
+        if rng.random() < 0.5:
+            out.append(rng.choice(AGING))
+        else:
+            # a fault met under 3-12 nested calls and derived forms: every enclosing call is abandoned half way
+            e = rng.choice(["(car '())", "(undefined-zz)", "(vector-ref (vector) 1)", "(/ 1 0)", "(5 5)", "(let ((a)) a)", "((lambda (x) x))"])
+            for _k in range(rng.randint(3, 12)):
+                e = rng.choice(["(list 1 %s)", "(+ 1 %s)", "(vector %s 2)", "((lambda (q) q) %s)", "(let ((w %s)) w)", "(if #t %s 0)", "(begin 1 %s)", "(cons %s '())", "(and 1 %s)", "(cond (#f 0) (else %s))"]) % e
+            out.append(e)
+    return out
